@@ -8,13 +8,13 @@ import vcheck as V
 _M_ITEM = re.compile(r"\((\d+)(?:%N)?,\((\d+)(?:%N)?,(\d+)(?:%N)?,(\w+)\)\)")
 
 NODE = {"C14": {1: "JSONFormatter", 2: "JSONFormatterFilter", 3: "Filter", 4: "FormatTable"},
-        "C18": {1: "cloudevents-json", 2: "cloudevents-text", 3: "invalid-config", 4: "sequence", 5: "concurrent"}}
+        "C18": {1: "cloudevents-json", 2: "cloudevents-text", 3: "invalid-config", 4: "sequence", 5: "concurrent", 6: "history-on-one-node"}}
 
 ARGS = {
     ("C14", "quick"): ["-modes", "grid,strings,random,table", "-random", "700", "-depth", "3", "-table", "150"],
     ("C14", "thorough"): ["-modes", "grid,strings,random,table", "-random", "20000", "-depth", "4", "-table", "2000"],
-    ("C18", "quick"): ["-modes", "grid,random,conc", "-random", "300", "-conc-per", "2500"],
-    ("C18", "thorough"): ["-modes", "grid,random,conc", "-random", "8000", "-depth", "4", "-conc-per", "40000"],
+    ("C18", "quick"): ["-modes", "grid,random,hist,conc", "-random", "250", "-hist", "30", "-conc-per", "2500"],
+    ("C18", "thorough"): ["-modes", "grid,random,hist,conc", "-random", "8000", "-depth", "4", "-hist", "2000", "-conc-per", "40000"],
 }
 PRIORITY = ["KModel", "KErr", "KFwd", "KErrStored", "KBytes", "KDoc", "KSignIn", "KStoredMutated", "KOther", "KFrame", "KLine", "KParse", "KFields", "KSer", "KIndent", "KDecode", "KLww", "KFresh"]
 MEANING = {
@@ -77,7 +77,10 @@ def _recipe_size(r):
 
 
 def _case_size(c):
-    n = len(c.get("ops") or []) + len(c.get("pre") or []) + len(c.get("type") or "") // 2 + len(c.get("events") or [])
+    n = len(c.get("ops") or []) + len(c.get("pre") or []) + 3 * len(c.get("hist") or [])
+    for st in c.get("hist") or []:
+        if st.get("ev"):
+            n += _case_size(st["ev"]) + len(c.get("type") or "") // 2 + len(c.get("events") or [])
     for k in ("payload", "data"):
         if c.get(k):
             n += _recipe_size(c[k])
@@ -195,7 +198,7 @@ RULE = {
             "string sweep and forced FormattedAs/Format schedules; Coq compares the stored bytes with Json.render byte for byte and parses them back. "
             "distinct_nontrivial = distinct cases whose payload is nested, unencodable, a non-empty string, or whose type needs escaping; table schedules with >1 op."),
     "C18": ("Process calls on the real cloudevents.FormatterFilter over the product payload kind x format x schema x source x signer x listed x predicate, "
-            "plus random payload data, the list of all fresh ids the run observed (distinctness) and one FormatterFilter shared by 8 goroutines (duplicate ids / panics, counted by the harness); the stored document is compared with CloudEvents.process byte for byte, serialized is "
+            "plus random payload data, the list of all fresh ids the run observed (distinctness) one FormatterFilter shared by 8 goroutines (duplicate ids / panics, counted by the harness), and histories of Process / Rotate calls on ONE FormatterFilter (all of length <= 3 over {listed, unlisted, Rotate A / B / failing / nil} x initial signer none / A / failing, plus random longer ones), every event judged under the signer in force; the stored document is compared with CloudEvents.process byte for byte, serialized is "
             "base64url-decoded inside Coq and compared with the unsigned document and with the signer's recorded input. "
             "distinct_nontrivial = distinct cases with a valid configuration (the document is built)."),
 }
